@@ -44,7 +44,8 @@ PIN_CONSTS = ["CHUNK_SIZE_COLUMNS_FOR_DROP_COLUMNS", "CHUNK_SIZE_ROWS_FOR_DROP_C
 
 
 def dataset(name):
-    """Designed tables: duplicate-spectrum PSMs adjacent (A), far apart (B), with an exact duplicate row (C)."""
+    """Designed tables: duplicate-spectrum PSMs adjacent (A), far apart (B), with an exact duplicate row (C), spectra that
+    differ in the last of three key columns only (D)."""
     if name == "A":
         df, spec = gen_psms([2, 1, 3, 1, 1, 2, 1, 1, 2, 1, 1, 1, 3, 1, 1, 2, 1, 1], offset=2)
     elif name == "B":
@@ -55,6 +56,9 @@ def dataset(name):
     elif name == "C":
         df, spec = gen_psms([1, 2, 1, 1, 3, 1, 1, 1, 2, 1, 1, 1, 1, 2, 1, 1, 1, 1, 1], offset=3)
         df = pd.concat([df.iloc[:7], df.iloc[[3]], df.iloc[7:], df.iloc[[3]]]).reset_index(drop=True)  # exact duplicates
+    elif name == "D":
+        # three-column spectrum key; neighbouring spectra share scan number and retention time (chimeric scan)
+        df, spec = gen_psms([2, 1, 1, 2, 1, 1, 2, 1, 1, 1, 2, 1, 1, 2, 1, 1, 1, 1, 2, 1], offset=4, key_cols=3, chimeric=True)
     else:
         raise KeyError(name)
     return df, spec
@@ -429,6 +433,14 @@ def make_cases(ctx):
                         if "rg" in cfg:
                             cfg["fmt"] = "parquet"
                         cases.append(dict(base, config=cfg))
+    # spectra told apart by the last of three key columns only
+    n = n_rows("D")
+    for c in ("CONFIDENCE_CHUNK_SIZE", "MERGE_SORT_CHUNK_SIZE"):
+        for v in range(1, n + 2):
+            cases.append({"data": "D", "dedup": True, "config": {c: v}})
+    for v in (1, 3, n):
+        cases.append({"data": "D", "dedup": True, "config": {"CHUNK_SIZE_ROWS_PREDICTION": v}})
+        cases.append({"data": "D", "dedup": True, "config": {"fmt": "parquet", "rg": v}})
     # estimator without a decision function (scores are not calibrated; another code path in prediction)
     for data in ("A", "B"):
         n = n_rows(data)
